@@ -40,9 +40,7 @@ use crate::seqx::model_step;
 use crate::shadow;
 use crate::shadow::ShadowFs;
 use crate::sut::chunk_name;
-use crate::sut::mstate;
 use crate::sut::open_store;
-use crate::sut::read_range;
 use crate::sut::Cfg;
 use crate::sut::ScratchDir;
 use crate::vt::AckEvent;
